@@ -1,5 +1,6 @@
 import Chartparse.Proofs.InstProofs
 import Chartparse.Proofs.Round
+import Chartparse.Model.Instrument
 /-! Property theorems of C04 (statements only; helper lemmas live in `Proofs/`). -/
 namespace Chartparse.Props.C04
 open Chartparse Chartparse.Inst Chartparse.F64
@@ -21,5 +22,31 @@ theorem C04_first_forced :
     ∀ (thr : Int) (tick : Nat) (lanes : List Bool) (tap : Bool),
     hopoState thr tick lanes tap true none = .error .valueError :=
   @Chartparse.Inst.hopo_forced_first
+
+/-- obligation: `NoteDuration.EIGHTH_TRIPLET.value` is the integer 3 -/
+theorem gen_triplet : Gen.eighthTriplet = 3 := by decide
+
+/-- C04, threshold: for every resolution below 2⁵⁰ the model's `note_duration_to_ticks(res, EIGHTH_TRIPLET)` — Python
+    `round` of the binary64 quotient — is `res/3` rounded to the nearest tick -/
+theorem C04_threshold (res : Nat) (hlt : res < 1125899906842624) :
+    tripletThreshold (res : Int) = ((2 * res + 3) / 6 : Nat) := by
+  unfold tripletThreshold
+  rw [gen_triplet, Int.toNat_natCast]
+  exact Chartparse.F64.threshold_float res hlt
+
+/-- the literal "for every resolution" is false for binary64 — the listed known finding as a kernel-checked witness:
+    at resolution 2⁵³ the computed threshold is one tick short of `round(res/3)` -/
+theorem threshold_fails_at_2_53 :
+    tripletThreshold 9007199254740992 = 3002399751580330 ∧ (2 * 9007199254740992 + 3) / 6 = 3002399751580331 := by
+  decide +kernel
+
+/-- non-vacuity: resolution 100 (threshold 33, where rounding and truncating differ from 192): a different single note
+    33 ticks later is a HOPO, 34 ticks later a strum, and the forced flag inverts both -/
+example : (hopoState (tripletThreshold 100) 133 [false, true, false, false, false] false false
+      (some (100, [true, false, false, false, false]))).toOption = some .hopo ∧
+    (hopoState (tripletThreshold 100) 134 [false, true, false, false, false] false false
+      (some (100, [true, false, false, false, false]))).toOption = some .strum ∧
+    (hopoState (tripletThreshold 100) 133 [false, true, false, false, false] false true
+      (some (100, [true, false, false, false, false]))).toOption = some .strum := by decide +kernel
 
 end Chartparse.Props.C04
